@@ -28,6 +28,7 @@ enum Place {
 use Place::*;
 mod runall;
 mod thenfilter;
+mod regexsyn;
 
 /// order everywhere: excl_line, excl_start, excl_stop, excl_br_line, excl_br_start, excl_br_stop
 struct PatSet {
@@ -1500,6 +1501,11 @@ pub fn run(rep: &mut Report) {
                 line or branch of the file; distinct = distinct (options, source kind, per-line match bits, file \
                 bytes, record)"
         .to_string();
+    if std::env::var_os("C16_ONLY_RX").is_some() {
+        // development aid of part Regex: only its streams
+        regexsyn::run(rep);
+        return;
+    }
     let ctx = ctx_new(rep);
     let mut rng = Rng::new(rep.seed ^ 0xC16);
 
@@ -1548,11 +1554,13 @@ pub fn run(rep: &mut Report) {
     }
     runall::run(rep);
     thenfilter::run(rep);
+    regexsyn::run(rep);
 }
 
 pub fn replay(rep: &mut Report, case: &serde_json::Value) {
     if runall::replay(rep, case) { return; }
     if thenfilter::replay(rep, case) { return; }
+    if regexsyn::replay(rep, case) { return; }
     let ctx = ctx_new(rep);
     match case_from_json(case) {
         Some(c) => evaluate(rep, &ctx, &[c], "replay"),
